@@ -35,14 +35,21 @@ pub fn exec(kv: &Kv) -> String {
         },
         Err(_) => "noparse".into(),
     };
+    // the in-place writer into a dirty buffer must produce the same attribute bytes
+    let mut dirty = vec![0xa5u8; x.padded_len() as usize + 4];
+    let inplace = match x.write_into(&mut dirty) {
+        Ok(n) => hex(&dirty[..n]),
+        Err(_) => "err".into(),
+    };
     format!(
-        "ty={:04x} wire={} back={} other={} viawire={} viamsg={}",
+        "ty={:04x} wire={} back={} other={} viawire={} viamsg={} inplace={}",
         raw.get_type().value(),
         hex(&raw.value),
         render(back),
         render(other),
         viawire,
-        viamsg
+        viamsg,
+        inplace
     )
 }
 
